@@ -179,6 +179,24 @@ def query2(ctx) -> List[Ob]:
                     names = {a for a, _ in adds}
                     if any(x == v for _, x in adds) and any(x == jt for _, x in adds) and len(names) == 2:
                         good = True
+        alt_exiting_ok = False
+        if not good and not inner:
+            # the same through a collection: L = [jt for jt in <targets of v> if jt not in sub]; exits.update(L);
+            # if L [or <v is exiting>]: exiting.add(v)
+            for st_ in lp.body:
+                if isinstance(st_, ast.Assign) and len(st_.targets) == 1 and isinstance(st_.targets[0], ast.Name) and isinstance(st_.value, (ast.ListComp, ast.SetComp)) and len(st_.value.generators) == 1:
+                    g_ = st_.value.generators[0]
+                    L = st_.targets[0].id
+                    jt = A.unparse(g_.target)
+                    if A.unparse(g_.iter) in (f"self.graph[{v}].jump_targets", f"self[{v}].jump_targets") and A.unparse(st_.value.elt) == jt and [A.unparse(c_) for c_ in g_.ifs] == [f"{jt} not in {sub}"]:
+                        upd = [x for x in lp.body if isinstance(x, ast.Expr) and isinstance(x.value, ast.Call) and isinstance(x.value.func, ast.Attribute) and x.value.func.attr == "update" and x.value.args and A.unparse(x.value.args[0]) == L]
+                        ifs_ = [x for x in lp.body if isinstance(x, ast.If) and not x.orelse and any(isinstance(y, ast.Expr) and isinstance(y.value, ast.Call) and isinstance(y.value.func, ast.Attribute) and y.value.func.attr == "add" and y.value.args and A.unparse(y.value.args[0]) == v for y in x.body)]
+                        tests_ = set()
+                        for x in ifs_:
+                            tests_ |= {A.unparse(t_) for t_ in (x.test.values if isinstance(x.test, ast.BoolOp) and isinstance(x.test.op, ast.Or) else [x.test])}
+                        if len(upd) == 1 and L in tests_ and tests_ <= {L, f"self.graph[{v}].is_exiting", f"self[{v}].is_exiting"}:
+                            good = True
+                            alt_exiting_ok = any("is_exiting" in t_ for t_ in tests_)
         if good:
             out.append(ok("QUERY-2", m.qualname, key, where, "for every target of an inside block that is not inside: the block is exiting, the target an exit"))
         elif inner:
@@ -187,7 +205,7 @@ def query2(ctx) -> List[Ob]:
             out.append(unresolved("QUERY-2", m.qualname, key, where, "inner loop over the forward targets of an inside block not found"))
         key = "inside blocks without target are exiting"
         ex = [n for n in lp.body if isinstance(n, ast.If) and "is_exiting" in A.unparse(n.test) and v in A.unparse(n.test) and method_calls(ast.Module(n.body, []), "add")]
-        if ex:
+        if ex or alt_exiting_ok:
             out.append(ok("QUERY-2", m.qualname, key, where, "a block without successors is exiting"))
         else:
             out.append(bad("QUERY-2", m.qualname, key, where, "inside blocks without any target (returns) are not counted as exiting"))
